@@ -143,6 +143,9 @@ Definition s_c05_call (pre : obs) (blk : block) (gv : gview) (executor : option 
       | None => 1
       | Some p =>
           if negb (status_eqb (po_status p) Passed) then 1                 (* dispatched while not Passed *)
+          else if negb (s_c03_prop blk p =? 0) && negb (s_c03_prop blk p =? 200) then 17
+               (* dispatched although the recorded ballots do not imply Passed (ballots outweighing the total:
+                  class D3, reported under C03 / C06) *)
           else if (1 <? N.of_nat (count_exec id all)) then 2                (* dispatched twice in one transaction *)
           else if negb (list_eqb emsg_eqb out (refund_of p ++ map EUser (po_msgs p))) then 3   (* not exactly as proposed *)
           else if is_flex && negb (match executor with
@@ -385,14 +388,47 @@ Definition owns_acceptance (prop : N) (o : op) : bool :=
   | _, _ => true
   end.
 
+(* S_C03, admission: the status the queries report is the status Execute is admitted on *)
+Definition s_c03_admit (pre : obs) (gv : gview) (executor : option executor) (is_flex : bool)
+           (sender : N) (o : op) (calls : list hcall) : N :=
+  match o, calls with
+  | Execute id, HCall _ _ false _ :: _ =>
+      match find_prop pre id with
+      | Some p =>
+          if status_eqb (po_status p) Passed &&
+             (negb is_flex || match executor with
+                              | None => true
+                              | Some ExMember => match g_now gv sender with Some _ => true | None => false end
+                              | Some (ExOnly a) => a =? sender
+                              end)
+          then 10                         (* Execute refused although the proposal is reported Passed and the caller authorised *)
+          else 0
+      | None => 0
+      end
+  | _, _ => 0
+  end.
+
 Definition contract (prop : N) (ms : mstate) (starts : list (N * N)) (pre post : obs) (blk : block) (g : genv)
            (sender : N) (o : op) (calls : list hcall) (ok : bool) : N :=
   match prop with
-  | 3 => let a := s_c03 blk pre in if negb (a =? 0) then a else s_c03 blk post
+  | 3 => let a := s_c03 blk pre in if negb (a =? 0) then a else
+         let b := s_c03 blk post in if negb (b =? 0) then b else
+         s_c03_admit pre (gview_of_env g) (cfg_executor ms) (flex ms) sender o calls
   | 5 => s_c05 pre post blk (gview_of_env g) (cfg_executor ms) (flex ms) (cfg_period ms) calls ok
   | 6 => s_c06_full pre post blk (flex ms) g starts sender o ok
   | 15 => if flex ms then s_c15 pre post blk (cfg_deposit ms) sender o calls ok else 0
   | _ => 0
+  end.
+
+(* the model and the implementation have parted (at instantiation, or at some step): the step contracts are still
+   evaluated on the implementation's steps (they need the configuration only), so that a concrete
+   failing input is reported when there is one; otherwise the divergence itself is *)
+Fixpoint contracts_only (prop : N) (starts : list (N * N)) (i : N) (cfg : mstate) (l : list tstep) : list (N * N) :=
+  match l with
+  | [] => []
+  | TCall blk sender o g before calls ok after :: r =>
+      let c := contract prop cfg starts before after blk g sender o calls ok in
+      if negb (c =? 0) && (c <? 200) then [(i, 100 + c)] else contracts_only prop starts (i + 1) cfg r
   end.
 
 (* result codes: 100+c contract clause c (c >= 200: failure inside a known-finding class, reported and
@@ -409,23 +445,14 @@ Fixpoint check_steps (prop : N) (self : N) (starts : list (N * N)) (i : N) (ms :
       let '(hok, out) := match calls with HCall _ _ h m :: _ => (h, m) | [] => (false, []) end in
       let hok_m := is_ok (step ms gv blk sender o) in
       let '(ms', ok_m) := tx ms gv blk self sender o (Bool.eqb ok hok) in
-      if negb (Bool.eqb hok hok_m) || (ok && negb ok_m) then (if owns_acceptance prop o then known ++ [(i, 49)] else known)
-      else if negb (corr_props prop blk (proposals ms') (ob_props after)) then known ++ [(i, 50)]
+      if negb (Bool.eqb hok hok_m) || (ok && negb ok_m)
+      then (if owns_acceptance prop o then known ++ [(i, 49)] ++ contracts_only prop starts (i + 1) ms r else known)
+      else if negb (corr_props prop blk (proposals ms') (ob_props after))
+      then known ++ [(i, 50)] ++ contracts_only prop starts (i + 1) ms r
       else if ((prop =? 5) || (prop =? 15)) && hok &&
               negb (list_eqb emsg_eqb out (match step ms gv blk sender o with Ok (_, m) => m | _ => [] end))
-           then known ++ [(i, 51)]
+           then known ++ [(i, 51)] ++ contracts_only prop starts (i + 1) ms r
       else known ++ check_steps prop self starts (i + 1) ms' r
-  end.
-
-(* the model refused an instantiation the implementation accepted: the step contracts are still
-   evaluated on the implementation's steps (they need the configuration only), so that a concrete
-   failing input is reported when there is one; otherwise the divergence itself is *)
-Fixpoint contracts_only (prop : N) (starts : list (N * N)) (i : N) (cfg : mstate) (l : list tstep) : list (N * N) :=
-  match l with
-  | [] => []
-  | TCall blk sender o g before calls ok after :: r =>
-      let c := contract prop cfg starts before after blk g sender o calls ok in
-      if negb (c =? 0) then [(i, 100 + c)] else contracts_only prop starts (i + 1) cfg r
   end.
 
 Definition check_trace (prop : N) (t : trace) : list (N * N) :=
@@ -444,7 +471,11 @@ Definition check_trace (prop : N) (t : trace) : list (N * N) :=
 (* per trace: the first known-class report (code >= 300) and the first other report *)
 Definition summarize (l : list (N * N)) : list (N * N) :=
   let k := find (fun x => 300 <=? snd x) l in
-  let f := find (fun x => snd x <? 300) l in
+  (* a concrete clause (found on a later step of the same history) is preferred to the divergence that preceded it *)
+  let f := match find (fun x => (100 <=? snd x) && (snd x <? 300)) l with
+           | Some x => Some x
+           | None => find (fun x => snd x <? 300) l
+           end in
   (match k with Some x => [x] | None => [] end) ++ (match f with Some x => [x] | None => [] end).
 
 Fixpoint check_traces (prop : N) (i : N) (ts : list trace) : list (N * N) :=
